@@ -161,6 +161,45 @@ def cache_facts():
     return cached, clears
 
 
+# ---------- does an interactive session stop at interaction_complete_patterns?
+def interact_breaks():
+    """True iff, in both channels, the event loop of `send_inputs_interact` contains `if <... self._interaction_complete(...) ...>: break`
+    directly in the loop body (after the event's read), and the helper tests the event's own expected response first.
+    False iff neither loop contains a `break`.  Anything else cannot be translated."""
+    res = []
+    for rel, cls in (("scrapli/channel/sync_channel.py", "Channel"), ("scrapli/channel/async_channel.py", "AsyncChannel")):
+        fn = _method(rel, cls, "send_inputs_interact")
+        loops = [n for n in ast.walk(fn) if isinstance(n, (ast.For, ast.AsyncFor)) and getattr(n.target, "id", "") == "interact_event"]
+        if len(loops) != 1:
+            raise TranslateError(f"{rel}: the event loop of send_inputs_interact was not found")
+        breaks = [n for n in ast.walk(loops[0]) if isinstance(n, ast.Break)]
+        if not breaks:
+            res.append(False)
+            continue
+        guarded = [st for st in loops[0].body if isinstance(st, ast.If) and not st.orelse and st.body and isinstance(st.body[-1], ast.Break)
+                   and all(isinstance(x, ast.Expr) for x in st.body[:-1])
+                   and any(isinstance(c, ast.Call) and _is_self_attr(c.func, "_interaction_complete") for c in ast.walk(st.test))
+                   and not isinstance(st.test, ast.UnaryOp)]
+        if len(breaks) != 1 or len(guarded) != 1:
+            raise TranslateError(f"{rel}: send_inputs_interact leaves its event loop in a way that is not modelled")
+        res.append(True)
+    if res[0] != res[1]:
+        raise TranslateError(f"sync and asyncio send_inputs_interact differ in stopping at interaction_complete_patterns: {res}")
+    if res[0]:
+        # the helper: no patterns => False; expected response matched => False (tested first); else any(complete pattern matched)
+        h = _body(_method("scrapli/channel/base_channel.py", "BaseChannel", "_interaction_complete"))
+        rets = [n for st in h for n in ast.walk(st) if isinstance(n, ast.Return)]
+        shape_ok = (len(h) >= 3 and isinstance(h[0], ast.If) and isinstance(h[0].test, ast.UnaryOp) and isinstance(h[0].test.op, ast.Not)
+                    and getattr(h[0].test.operand, "id", "") == "interaction_complete_patterns"
+                    and isinstance(rets[0].value, ast.Constant) and rets[0].value.value is False
+                    and len(rets) == 3 and isinstance(rets[1].value, ast.Constant) and rets[1].value.value is False
+                    and "channel_response" in ast.dump(next(st for st in h if isinstance(st, ast.If) and st is not h[0]).test)
+                    and isinstance(rets[2].value, ast.Call) and getattr(rets[2].value.func, "id", "") == "any")
+        if not shape_ok:
+            raise TranslateError("base_channel.py: _interaction_complete is not `no patterns -> False; expected response seen -> False; any(complete pattern seen)`")
+    return res[0]
+
+
 # ---------- the flags classification searches with
 _RE_FUNCS = {"search", "match", "fullmatch", "compile", "finditer", "findall"}
 
@@ -498,6 +537,8 @@ def generate():
     a += f"/-- DUMMY_PRIV_LEVEL.name -/\ndef dummyName : String := {lstr(c['dummy'])}\n"
     a += f"/-- acquire_priv gives up when privilege_change_count > len(privilege_levels) * loopFactor -/\ndef loopFactor : Nat := {c['factor']}\n"
     a += f"/-- the level `_pre_send_configs` resolves an empty privilege_level to -/\ndef configLevel : String := {lstr(c['configLevel'])}\n"
+    a += ("/-- `send_inputs_interact` leaves its event loop when an event's read ended on one of `interaction_complete_patterns` "
+          f"rather than on the event's expected response -/\ndef interactBreaksOnComplete : Bool := {lbool(interact_breaks())}\n")
     flags = classify_flags()
     a += f"/-- the re flags `_determine_current_priv` searches privilege patterns with (and every helper it calls) -/\ndef classifyFlags : List String := {lstrs(flags)}\n"
     cached, clears = cache_facts()
